@@ -226,7 +226,32 @@ def rejected_functions():
                      inp("x", "x", SI)], [("o", "P0", "x")], ["all-literal-params", "must-reject"]))
     out.append(prog([{"k": "def", "f": "al2", "params": [("k", CI)], "ret": SI, "body": [inp("q", "q", SI)], "res": "q", "form": "explicit"},
                      inp("x", "x", SI)], [("o", "P0", "x")], ["all-literal-params", "must-reject"]))
+    # explicit types that contradict the Python annotations of the function: the explicit ones decide
+    d = prog([inp("arr", "arr", ("arr", SI, 2)),
+              {"k": "def", "f": "twice", "params": [("a", SI)], "ret": CI, "body": [{"k": "bin", "x": "s", "op": "OAdd", "a": "a", "b": "a"}], "res": "s", "form": "explicit"},
+              {"k": "map", "x": "m", "a": "arr", "f": "twice"}], [("o", "P0", "m")], ["literal-return", "must-reject", "annotations-vs-explicit-types"])
+    d["text"] = ("from nada_dsl import *\n\n\ndef nada_main():\n    party_P0 = Party(name='P0')\n"
+                 "    arr = Array(SecretInteger(Input(name='arr', party=party_P0)), size=2)\n"
+                 "    def twice(a: PublicInteger) -> PublicInteger:\n        s = a + a\n        return s\n"
+                 "    twice = nada_fn(twice, args_ty={'a': SecretInteger}, return_ty=Integer)\n"
+                 "    m = arr.map(twice)\n    return [Output(m, 'o', party_P0)]\n")
+    out.append(d)
     return out
+
+
+def explicit_types_reordered():
+    """nada_fn(fn, args_ty=...) with the keys of args_ty in another order than the parameters"""
+    st = [inp("s", "s", SI), inp("q", "q", PI),
+          {"k": "def", "f": "scale", "params": [("x", SI), ("y", PI)], "ret": SI,
+           "body": [{"k": "bin", "x": "d", "op": "OSub", "a": "x", "b": "y"}], "res": "d", "form": "explicit"},
+          {"k": "call", "x": "r", "f": "scale", "args": ["s", "q"], "kwargs": []}]
+    d = prog(st, [("o", "P0", "r")], ["explicit-types-reordered"])
+    d["text"] = ("from nada_dsl import *\n\n\ndef nada_main():\n    party_P0 = Party(name='P0')\n"
+                 "    s = SecretInteger(Input(name='s', party=party_P0))\n    q = PublicInteger(Input(name='q', party=party_P0))\n"
+                 "    def scale(x, y):\n        d = x - y\n        return d\n"
+                 "    scale = nada_fn(scale, args_ty={'y': PublicInteger, 'x': SecretInteger}, return_ty=SecretInteger)\n"
+                 "    r = scale(s, q)\n    return [Output(r, 'o', party_P0)]\n")
+    return d
 
 
 def signatures():
@@ -367,4 +392,4 @@ def all_families():
             inner_public_secret(), inner_int_uint(), untruthful_annotation(), secret_flows(), signatures(), output_of_function(),
             dup_inputs("same-party"), dup_inputs("same-party-diff-type"), dup_inputs("diff-party"), dup_inputs("diff-party-one-dead"),
             dup_inputs("same-party-one-dead"), literal_array_inner(), object_key_order(), literal_divisions(),
-            closure_factory(), kwargs_reordered(), unzip_compound(), reduce_public_seed(), rebound_closure_variable()] + rejected_functions()
+            closure_factory(), kwargs_reordered(), unzip_compound(), reduce_public_seed(), rebound_closure_variable(), explicit_types_reordered()] + rejected_functions()
